@@ -17,3 +17,18 @@ using a2_t = nmtools_array<nm_size_t,2>;
 using opt_a3_t = nmtools_maybe<a3_t>;
 opt_a3_t verif_f_broadcast_shape(a3_t a, a3_t b) { return ix::broadcast_shape(a,b); }
 opt_a3_t verif_f_broadcast_shape32(a3_t a, a2_t b) { return ix::broadcast_shape(a,b); }
+// element mapping of broadcast_to: destination index -> source index
+struct bti_res { bool ok; sv_t src_index; };
+using bti_res_t = bti_res;
+bti_res verif_broadcast_to_index(sv_t indices, sv_t src_shape, sv_t dst_shape)
+{
+    // as view::broadcast_to does: validity + free axes, origin axes = the non-free ones, then the index map
+    auto r = ix::shape_broadcast_to(src_shape, dst_shape);
+    if (!r) return {false, sv_t{}};
+    auto so = ix::origin_axes(*r);
+    auto origin = nmtools::get<1>(so);
+    auto res = ix::broadcast_to(indices, src_shape, dst_shape, origin);
+    sv_t out; out.resize(nmtools::len(res));
+    for (nm_size_t i = 0; i < (nm_size_t)nmtools::len(res); i++) out[i] = nmtools::at(res, i);
+    return {true, out};
+}
